@@ -851,6 +851,13 @@ Proof.
   destruct (nth_error (m_conns m) c); reflexivity.
 Qed.
 
+Lemma proj_track_idle_stamp prev : forall l m, proj (fold_left (track_idle_stamp prev) l m) = proj m.
+Proof.
+  induction l as [|sn l IH]; intros m; cbn [fold_left]; [reflexivity|]. rewrite IH. unfold track_idle_stamp.
+  generalize (sn_idle sn). clear. intros l. revert m. induction l as [|c l IH]; intros m; cbn [fold_left]; [reflexivity|].
+  rewrite IH. destruct (mem c (idle_of prev (sn_token sn))); reflexivity.
+Qed.
+
 Definition Bd (m : mst) (s : state) : Prop := Inv None 0 (proj m) s /\ o_woken (m_prev m) = trues_from 0 (woken s).
 
 Lemma Inv_issue_start P s : Inv None 0 P s -> Inv None 1 (P ++ [(false, false, true)]) (set_woken (woken s ++ [false]) s).
@@ -918,7 +925,7 @@ Proof.
     assert (E : proj (track cfg m o (observe s')) = P').
     { unfold track. cbn [o_events observe].
       match goal with |- proj (set_m_prev _ (set_m_i _ ?X)) = _ => change (proj X = P') end.
-      rewrite proj_track_offer. exact B2. }
+      rewrite proj_track_idle_stamp, proj_track_offer. exact B2. }
     rewrite E. exact HI.
 Qed.
 
